@@ -34,7 +34,9 @@ def main():
                 if os.path.isdir(os.path.join(wt, base)):
                     dest_dir = os.path.join(wt, base)
             dest = os.path.join(dest_dir, "zz_seeded_demo_test.go")
-            demo_cmd = (dest, src, f"go test -count=1 -run '^({'|'.join(tests)})$' .", dest_dir)
+            meta_txt = open(os.path.join(mdir, "meta.txt")).read() if os.path.exists(os.path.join(mdir, "meta.txt")) else ""
+            race = "-race " if re.search(r"go test[^\n]*-race", meta_txt) else ""   # the demonstration says it needs the race detector
+            demo_cmd = (dest, src, f"GORACE=halt_on_error=1 go test {race}-count=1 -run '^({'|'.join(tests)})$' .", dest_dir)
         elif os.path.isdir(os.path.join(mdir, "demo")):
             demo_cmd = None
         def run_demo():
